@@ -71,11 +71,57 @@ Lemma get_buffer_shape els :
   match get_buffer els with
   | Ok (b, _) => blen b = record_len els | Panic => True | _ => False end.
 Proof.
-  unfold get_buffer. destruct (Nat.eqb_spec (N.to_nat (record_len els)) 0) as [Z|NZ].
-  - unfold blen. cbn [length]. lia.
-  - pose proof (get_buffer_loop_shape els (zeros (N.to_nat (record_len els))) 0 0) as S.
-    destruct (get_buffer_loop _ _ _ _) as [[b k]| | |]; auto.
+  unfold get_buffer.
+  pose proof (get_buffer_loop_shape els (zeros (N.to_nat (record_len els))) 0 0) as S.
+  destruct (get_buffer_loop _ _ _ _) as [[b k]| | |]; auto.
+  unfold blen. rewrite S, length_zeros. lia.
+Qed.
+
+(* ---- GetBuffer into a buffer of the recorded (add-time) length ---- *)
+Lemma enc_total_acc els : forall a,
+  fold_left (fun a ev => (a + N.to_nat (elem_len (fst ev) (snd ev)))%nat) els a =
+  (a + N.to_nat (record_len els))%nat.
+Proof.
+  unfold record_len. induction els as [|[e v] r IH]; intros a; cbn [fold_left fst snd]; [cbn; lia|].
+  rewrite IH. rewrite (fold_len_acc r (0 + elem_len e v)). lia.
+Qed.
+Lemma enc_total_eq els : enc_total els = N.to_nat (record_len els).
+Proof. unfold enc_total. now rewrite enc_total_acc. Qed.
+
+(* a record whose elements were not changed since they were added: GetBuffer is the lazily
+   encoded buffer of Codec.get_buffer (the length repair never fires) *)
+Lemma get_buffer_n_eq els : get_buffer_n (record_len els) els = get_buffer els.
+Proof.
+  unfold get_buffer_n, get_buffer_g, get_buffer. cbn [negb andb].
+  destruct (get_buffer_loop _ _ _ _) as [[b k]| | |]; cbn [obind]; try reflexivity.
+  rewrite enc_total_eq, Nat.eqb_refl. cbn [negb]. rewrite andb_false_r. reflexivity.
+Qed.
+
+(* whatever the element values are now, the buffer has the recorded length *)
+Lemma get_buffer_g_shape fz fl len els :
+  match get_buffer_g fz fl len els with
+  | Ok (b, _) => blen b = len | Panic => True | _ => False end.
+Proof.
+  unfold get_buffer_g. destruct (negb fz && Nat.eqb (N.to_nat len) 0) eqn:Z.
+  - apply andb_true_iff in Z as [_ Z]. apply Nat.eqb_eq in Z. unfold blen. cbn [length]. lia.
+  - pose proof (get_buffer_loop_shape els (zeros (N.to_nat len)) 0 0) as S.
+    destruct (get_buffer_loop _ _ _ _) as [[b k]| | |]; cbn [obind]; auto.
     unfold blen. rewrite S, length_zeros. lia.
+Qed.
+Lemma get_buffer_n_shape len els :
+  match get_buffer_n len els with
+  | Ok (b, _) => blen b = len | Panic => True | _ => False end.
+Proof. apply get_buffer_g_shape. Qed.
+
+(* no encode error (in the repaired code): the current values occupy exactly the recorded length *)
+Lemma get_buffer_n_noerr len els b :
+  get_buffer_n len els = Ok (b, 0%nat) -> len = record_len els.
+Proof.
+  unfold get_buffer_n, get_buffer_g. cbn [negb andb]. intros H.
+  destruct (get_buffer_loop _ _ _ _) as [[b' k]| | |]; cbn [obind] in H; try discriminate.
+  destruct k; cbn [Nat.eqb andb] in H.
+  - rewrite enc_total_eq in H. destruct (Nat.eqb_spec (N.to_nat (record_len els)) (N.to_nat len)); cbn [negb] in H; [lia|discriminate].
+  - discriminate.
 Qed.
 
 (* ---- data record lengths: the two construction paths agree ---- *)
@@ -213,6 +259,33 @@ Proof.
   apply IH. now apply Inv_step.
 Qed.
 
+(* The part of the invariant that survives changes of the element objects after the add (the
+   records keep their add-time lengths): header of 4 bytes, set length = 4 + the recorded
+   record lengths. *)
+Definition InvM (s : setb) : Prop := hdr4 s /\ s_len s = 4 + sum_rec_len (s_rrecs s).
+Lemma Inv_InvM s : Inv s -> InvM s.
+Proof. intros (A & B & _). split; assumption. Qed.
+
+Lemma InvM_step s o : InvM s -> InvM (fst (step s o)).
+Proof.
+  intros (H4 & HL). destruct o as [t id|f els id| |]; cbn [step].
+  - destruct t; cbn [fst create_header]; try (split; assumption);
+      match goal with |- context [put_at ?b ?i ?x] => destruct (put_at b i x) eqn:E end;
+      cbn [fst]; try (split; assumption);
+      (split; [|assumption]); unfold hdr4; cbn [s_hdr]; rewrite (put_at_length _ _ _ _ E); exact H4.
+  - destruct (build_record (s_type s) f els id) as [r| | |] eqn:E; cbn [fst]; try (split; assumption).
+    split; [exact H4|].
+    cbn [s_len s_rrecs sum_rec_len fold_right]. rewrite HL. unfold sum_rec_len. lia.
+  - destruct (put_at (s_hdr s) 2 (be 2 (s_len s))) eqn:E; cbn [fst]; try (split; assumption).
+    split; [|assumption]. unfold hdr4. cbn [s_hdr]. rewrite (put_at_length _ _ _ _ E). exact H4.
+  - cbn [fst]. split; reflexivity.
+Qed.
+Lemma InvM_run ops : forall s, InvM s -> InvM (run s ops).
+Proof.
+  unfold run. induction ops as [|o r IH]; intros s H; cbn [fold_left]; [exact H|].
+  apply IH. now apply InvM_step.
+Qed.
+
 (* (a) for every operation sequence whatsoever *)
 Theorem set_length_invariant ops :
   s_len (run new_set ops) = 4 + sum_rec_len (s_rrecs (run new_set ops)).
@@ -333,11 +406,28 @@ Qed.
 Lemma good_rec_buffer r : good_rec r ->
   match rec_buffer r with Ok b => blen b = rec_len r | Panic => True | _ => False end.
 Proof.
-  destruct r as [tid fc els buf m|tid fc els len]; unfold rec_buffer; cbn [good_rec rec_buffer_e rec_len omap fst].
+  destruct r as [tid fc els buf m|tid fc els len]; unfold rec_buffer, rec_buffer_e; cbn [good_rec rec_buffer_e_g rec_len omap fst].
   - reflexivity.
-  - intros ->. pose proof (get_buffer_shape els) as S.
-    destruct (get_buffer els) as [[b k]| | |]; cbn [omap fst]; exact S.
+  - intros _. fold (get_buffer_n len els). pose proof (get_buffer_n_shape len els) as S.
+    destruct (get_buffer_n len els) as [[b k]| | |]; cbn [omap fst]; exact S.
 Qed.
+(* the same without any hypothesis: the buffer of a data record has the recorded length even
+   when its element values changed since *)
+Lemma rec_buffer_len r :
+  match rec_buffer r with Ok b => blen b = rec_len r | Panic => True | _ => False end.
+Proof.
+  destruct r as [tid fc els buf m|tid fc els len]; unfold rec_buffer, rec_buffer_e; cbn [rec_buffer_e_g rec_len omap fst].
+  - reflexivity.
+  - fold (get_buffer_n len els). pose proof (get_buffer_n_shape len els) as S.
+    destruct (get_buffer_n len els) as [[b k]| | |]; cbn [omap fst]; exact S.
+Qed.
+(* an unchanged record: GetBuffer as specified in Codec.v *)
+Lemma good_rec_buffer_e tid fc els len :
+  good_rec (DRec tid fc els len) -> rec_buffer_e (DRec tid fc els len) = get_buffer els.
+Proof. unfold rec_buffer_e. cbn [good_rec rec_buffer_e_g]. intros ->. apply get_buffer_n_eq. Qed.
+(* the buffer of a data record, in terms of its length and current values *)
+Lemma rec_buffer_e_data tid fc els len : rec_buffer_e (DRec tid fc els len) = get_buffer_n len els.
+Proof. reflexivity. Qed.
 
 Lemma window_exact b : window (length b) b = b.
 Proof. unfold window. rewrite firstn_all, Nat.sub_diag. cbn. apply app_nil_r. Qed.
@@ -378,14 +468,14 @@ Definition all_buffers_ok (s : setb) : Prop :=
 
 (* CreateIPFIXMsg on a reachable set: refused exactly above the limit; otherwise the header,
    the set header and the record buffers, nothing else *)
-Theorem create_msg_spec s obs seq t :
-  Inv s -> all_buffers_ok s ->
+Theorem create_msg_spec_m s obs seq t :
+  InvM s -> all_buffers_ok s ->
   create_msg s obs seq t =
   if max_msg <? msg_hdr_len + s_len s then Err ErrTooBig
   else Ok ((be 2 10 ++ be 2 (msg_hdr_len + s_len s) ++ be 4 t ++ be 4 seq ++ be 4 obs)
            ++ s_hdr s ++ List.concat (map buf_of (s_recs s))).
 Proof.
-  intros (H4 & HL & HG) HB. unfold create_msg.
+  intros (H4 & HL) HB. unfold create_msg.
   destruct (max_msg <? msg_hdr_len + s_len s); [reflexivity|].
   rewrite msg_header_spec. cbn [obind].
   destruct (N.ltb_spec (msg_hdr_len + s_len s) (msg_hdr_len + set_header_len)) as [C|C].
@@ -400,8 +490,14 @@ Proof.
       by (now rewrite !app_length, !length_be).
     rewrite window_exact. rewrite <- H4, window_exact. reflexivity.
   - rewrite s_recs_rev in *. apply Forall_forall. intros r Hr.
-    assert (G : good_rec r). { rewrite Forall_forall in HG. apply HG. now apply in_rev. }
     unfold all_buffers_ok in HB. rewrite s_recs_rev, Forall_forall in HB. destruct (HB r Hr) as [b Eb].
-    pose proof (good_rec_buffer r G) as S. unfold buf_of. rewrite Eb in *. split; [reflexivity|exact S].
+    pose proof (rec_buffer_len r) as S. unfold buf_of. rewrite Eb in *. split; [reflexivity|exact S].
   - rewrite Hsum. unfold set_header_len. lia.
 Qed.
+Theorem create_msg_spec s obs seq t :
+  Inv s -> all_buffers_ok s ->
+  create_msg s obs seq t =
+  if max_msg <? msg_hdr_len + s_len s then Err ErrTooBig
+  else Ok ((be 2 10 ++ be 2 (msg_hdr_len + s_len s) ++ be 4 t ++ be 4 seq ++ be 4 obs)
+           ++ s_hdr s ++ List.concat (map buf_of (s_recs s))).
+Proof. intros H. apply create_msg_spec_m. now apply Inv_InvM. Qed.
